@@ -6,6 +6,7 @@
 #
 #############################################################################
 import contextlib
+import datetime
 import hashlib
 import logging
 from pathlib import Path
@@ -270,8 +271,10 @@ class MediaFile(ModelMixin["MediaFile"], Base):
             details = f'Invalid timescale {rep.timescale}'
         else:
             try:
-                rep.media_duration_timedelta()
-            except (OverflowError, ValueError) as dur_err:
+                for ticks in (rep.mediaDuration, rep.segment_duration):
+                    if rep.timescale_to_timedelta(ticks) <= datetime.timedelta(0):
+                        details = f'Duration {ticks} is too short for timescale {rep.timescale}'
+            except (OverflowError, ValueError, TypeError) as dur_err:
                 details = f'Invalid media duration: {dur_err}'
         if details is not None:
             err = MediaFileError(
